@@ -48,8 +48,9 @@ class FnModel:
                  evaluator: Optional[Evaluator] = None):
         self.index = index
         self.func = func
-        from .inline import inlined_function
+        from .inline import canon_calls, inlined_function
         self.node, self.inlined = inlined_function(index, func)
+        self.node = canon_calls(index, func.module, self.node)
         self.walk = walk_function(self.node)
         self.ren = role_rename(func.node, roles)
         self.roles = list(roles)
@@ -63,6 +64,17 @@ class FnModel:
                           if len(ds) == 1 and ds[0][0] == 'value'
                           and isinstance(ds[0][1], (ast.ListComp, ast.GeneratorExp, ast.List))}
         # `rng = get_gv_rng_if_none(rng)` rebinding is transparent
+        _expand = w.expand
+
+        class _W:
+            """the walk, with canonicalised expansions"""
+            defs = w.defs
+            events = w.events
+
+            @staticmethod
+            def expand(node, ren=None, **kw):
+                return self.canon(_expand(node, ren, **kw))
+        w = _W
         for e in w.events:
             g = self.formula(e.guard)
             if e.kind in ('store', 'attrstore', 'augstore'):
@@ -74,10 +86,10 @@ class FnModel:
                 tgt = w.expand(e.target, self.ren)
                 self.effects.append(Effect('delete', src(tgt), '', g, e, None, tgt))
             elif e.kind == 'call' and isinstance(e.node.func, ast.Attribute):
-                c = w.expand(e.node, self.ren)
+                c = _expand(e.node, self.ren)
                 self.effects.append(Effect('call', src(c.func), src(c), g, e, c, c.func))
             elif e.kind == 'call':
-                c = w.expand(e.node, self.ren)
+                c = _expand(e.node, self.ren)
                 self.effects.append(Effect('fcall', src(c.func), src(c), g, e, c, c.func))
             elif e.kind == 'return':
                 val = w.expand(e.value, self.ren) if e.value is not None else None
@@ -103,7 +115,48 @@ class FnModel:
             return f_and(*parts) if k == 'and' else f_or(*parts)
         if k == 'raises':
             return self._raises(f)
+        if k == 'atom':
+            e = self.canon(f[1])
+            # truthiness of a sequence local is its non-emptiness
+            if isinstance(e, ast.Name) and e.id in self.seq_names:
+                e = ast.Compare(ast.Call(ast.Name('len', ast.Load()), [e], []),
+                                [ast.Gt()], [ast.Constant(0)])
+            return ('atom', e)
         return f
+
+    def canon(self, node):
+        """canonical spelling of table idioms in an expanded expression:
+        `T.get(K) is None` -> `K not in T`, `T.get(K) is not None` -> `K in T`, and
+        `T.get(K)` -> `T[K]` (equal wherever the key is present; where it is absent the
+        rules read the guard, which now says so) for the literal action tables T"""
+        if node is None:
+            return None
+        tables = self.ev.action_tables
+
+        def is_get(n):
+            return isinstance(n, ast.Call) and isinstance(n.func, ast.Attribute) and \
+                n.func.attr == 'get' and isinstance(n.func.value, ast.Name) and \
+                n.func.value.id in tables and len(n.args) == 1 and not n.keywords
+        if not any(is_get(n) for n in ast.walk(node)):
+            return node
+
+        class T(ast.NodeTransformer):
+            def visit_Compare(self, n):
+                if len(n.ops) == 1 and isinstance(n.ops[0], (ast.Is, ast.IsNot, ast.Eq, ast.NotEq)):
+                    for a, b in ((n.left, n.comparators[0]), (n.comparators[0], n.left)):
+                        if is_get(a) and isinstance(b, ast.Constant) and b.value is None:
+                            op = ast.NotIn() if isinstance(n.ops[0], (ast.Is, ast.Eq)) else ast.In()
+                            return ast.Compare(self.visit(a.args[0]), [op],
+                                               [ast.Name(a.func.value.id, ast.Load())])
+                return self.generic_visit(n)
+
+            def visit_Call(self, n):
+                if is_get(n):
+                    return ast.Subscript(ast.Name(n.func.value.id, ast.Load()),
+                                         self.visit(n.args[0]), ast.Load())
+                return self.generic_visit(n)
+        out = T().visit(copy.deepcopy(node))
+        return ast.fix_missing_locations(out)
 
     def _raises(self, f):
         exc, node = f[1], f[2]
